@@ -182,7 +182,7 @@ def f2_fanin(tier):
     out = []
     ms = (2, 3) if tier == "quick" else (2, 3, 4)
     for m in ms:
-        barriers = ["all"] + list(range(1, m + 1))
+        barriers = ["all"] + list(range(1, m + 2))
         for barrier in barriers:
             cond_sets = [tuple([S] * m)]
             # one edge differs: *, F ; plus all-completed
@@ -287,6 +287,36 @@ def f2_fanin_extra():
             ),
         )
     )
+    # join: 3 with three inbound transitions from only two tasks (can never be satisfied)
+    out.append(
+        (
+            "fanin-count-gt-tasks",
+            WF(
+                {
+                    "a": T([N(S, ["b0", "b1"])]),
+                    "b0": T([N(S, "j"), N(C, "j")]),
+                    "b1": T([N(S, "j")]),
+                    "j": T(join=3),
+                }
+            ),
+        )
+    )
+    # a task that transitions into a join and into a sibling task with one `do` (join sorts first)
+    out.append(
+        (
+            "fanout-join-and-task",
+            WF(
+                {
+                    "t0": T([N(S, ["a", "b"])]),
+                    "a": T([N(S, ["j", "k"])]),
+                    "b": T([N(S, "j")]),
+                    "j": T(join="all"),
+                    "k": T([N(S, "kend")]),
+                    "kend": T(),
+                }
+            ),
+        )
+    )
     # join inside split lineages
     out.append(
         (
@@ -373,10 +403,24 @@ def loop_wf(k=2, body=1, exit_task=True, inside=None):
     return WF(tasks, vars=[{"n": 0}])
 
 
+def loop_forkjoin_wf(k=1):
+    """p -> a -> (b, c) -> j (join all) -> back to a while n < k, then x."""
+    return WF({
+        "p": T([N(S, "a")]),
+        "a": T([N(S, ["b", "c"])]),
+        "b": T([N(S, "j")]),
+        "c": T([N(S, "j")]),
+        "j": T([N("<%% succeeded() and ctx().n < %d %%>" % k, "a", publish=[("n", "<% ctx().n + 1 %>")]),
+                N("<%% succeeded() and ctx().n >= %d %%>" % k, "x")], join="all"),
+        "x": T(),
+    }, vars=[{"n": 0}])
+
+
 def f2_loops(tier):
     out = []
     out.append(("loop-k1-b1", loop_wf(1, 1)))
     out.append(("loop-k2-b1", loop_wf(2, 1)))
+    out.append(("loop-forkjoin-k1", loop_forkjoin_wf(1), S_ONLY))
     if tier != "quick":
         out.append(("loop-k2-b2", loop_wf(2, 2)))
         out.append(("loop-k1-b2-noexit", loop_wf(1, 2, exit_task=False)))
@@ -538,6 +582,13 @@ def f4_defs(tier):
         out.append(
             ("items-n3-kexpr%d" % kv, WF({"t": t}, input=["xs", "k"]), {"xs": [0, 1, 2], "k": kv})
         )
+    # repeated item values
+    t = T(action="core.echo", input={"message": "<% item() %>"})
+    t["with"] = {"items": "<% ctx(xs) %>", "concurrency": 2}
+    out.append(("items-repeated-values", WF({"t": t}, input=["xs", "k"]), {"xs": [7, 8, 7, 9], "k": 2}))
+    t = T(action="core.echo", input={"message": "<% item() %>"})
+    t["with"] = {"items": "<% ctx(xs) %>"}
+    out.append(("items-repeated-dicts", WF({"t": t}, input=["xs", "k"]), {"xs": [{"a": 1}, {"a": 1}, {"a": 2}], "k": 2}))
     # with-items task as a join target / multi-referenced target
     t = T(action="core.echo", input={"message": "<% item() %>"}, join="all")
     t["with"] = {"items": "<% ctx(xs) %>", "concurrency": 1}
@@ -598,6 +649,16 @@ def f5_defs(tier):
     )
     out.append(("retry-command", WF({"a": T([N(F, "retry"), N(S, "b")]), "b": T()})))
     out.append(("retry-command-nowhen", WF({"a": T([N(None, "retry")])})))
+    # retry command listed beside another target
+    out.append(("retry-command-with-cleanup", WF({"a": T([N(F, ["c", "retry"]), N(S, "b")]), "b": T(), "c": T()})))
+    # retry on a multi-referenced task (two routes share the task)
+    out.append(("retry-split-target", WF({
+        "r0": T([N(S, "t")]), "r1": T([N(S, "t")]), "t": T(retry={"count": 1})})))
+    # retry count is an expression over a variable that changes between loop iterations
+    lw = loop_wf(2, 1)
+    lw["tasks"]["l0"]["retry"] = {"count": "<% ctx(n) %>"}
+    lw["tasks"]["l0"]["next"].append(N(F, "noop"))
+    out.append(("retry-count-expr-in-loop", lw))
     # retry on a join task
     out.append(
         (
@@ -720,6 +781,22 @@ def f6_defs(tier):
     lw["tasks"]["l0"]["next"][0]["publish"].append({"v": RES})
     lw["output"] = [{"v": "<% ctx(v) %>"}, {"n": "<% ctx(n) %>"}]
     out.append(("loop-publish", lw))
+    # a task forks into a join and a sibling that reads an input variable (C08: shared lists across transitions)
+    out.append(("fanout-join-and-task-ctx", WF({
+        "t0": T([N(S, ["a", "b"], publish=[("u", RES)])]),
+        "a": T([N(S, ["j", "k"], publish=[("v", RES)])]),
+        "b": T([N(S, "j")]),
+        "j": T(join="all"),
+        "k": T([N(S, "kend")], input={"p": "<% ctx(base) %>"}),
+        "kend": T(input={"p": "<% ctx(u) %>"})}, vars=V + [{"base": 10}], output=OUT)))
+    # fork without a join, branches of different length, each publishing its own variable
+    out.append(("fork-nojoin-publish", WF({
+        "a": T([N(S, ["b", "c"])]),
+        "b": T([N(S, "b2")]),
+        "b2": T([N(S, "b3", publish=[("u", RES)])]),
+        "b3": T(),
+        "c": T([N(S, "c2", publish=[("v", RES)])]),
+        "c2": T()}, vars=V, output=OUT)))
     # falsy results are values like any other
     out.append(("falsy-results", WF({
         "a": T([N(S, "b", publish=[("v", RES)])]),
@@ -873,6 +950,31 @@ def fx_all(tier):
                 wf, trig = fx_host(pos, expr)
                 meta = {"trigger": trig, "position": pos, "kind": kind, "lang": lang}
                 out.append(scn("FX/%s-%s-%s" % (pos, kind, lang), wf, "FX", meta=meta))
+    # the failing expression sits in one of two clean-up tasks listed beside a fail command
+    for kind, langs in BAD_EXPRS.items():
+        if kind == "zero_division":
+            continue
+        for lang, expr in langs.items():
+            wf = WF({
+                "a": T([N(S, "b"), N(F, ["c1", "c2", "fail"])]),
+                "b": T(),
+                "c1": T(input={"p": expr}),
+                "c2": T([N(S, "c3")]),
+                "c3": T(),
+            }, vars=[{"d": {"a": 1}}, {"n": 1}])
+            meta = {"trigger": {"kind": "dispatch_failed_wf", "task": "c1"}, "position": "cleanup_task_input",
+                    "kind": kind, "lang": lang}
+            out.append(scn("FX/cleanup-%s-%s" % (kind, lang), wf, "FX", meta=meta))
+            # retry condition that cannot be evaluated, on a task that fails and has a failure handler
+            wf = WF({
+                "a": T([N(S, "b")]),
+                "b": T([N(S, "c"), N(F, "h")], retry={"count": 1, "when": expr}),
+                "c": T(), "h": T(),
+            }, vars=[{"d": {"a": 1}}, {"n": 1}])
+            meta = {"trigger": {"kind": "complete", "task": "b", "statuses": ["succeeded", "failed"],
+                                "only_if_status": ["running", "resuming", "pausing", "canceling"]},
+                    "position": "retry_when_with_handler", "kind": kind, "lang": lang}
+            out.append(scn("FX/retrywhen-handler-%s-%s" % (kind, lang), wf, "FX", meta=meta))
     # an expression that fails only on a later loop iteration (zero division once n == 1)
     for lang in ("yaql", "jinja"):
         e = BAD_EXPRS["zero_division"][lang]
@@ -951,6 +1053,11 @@ def graph_shapes(tier):
     out.append(("G/diamonds", WF({
         "a": T([N(S, ["b", "c"])]), "b": T([N(S, "d")]), "c": T([N(S, "d")]),
         "d": T([N(S, ["e", "f"])]), "e": T([N(S, "g")]), "f": T([N(S, "g")]), "g": T()})))
+    # retry command beside other targets; join: 0
+    out.append(("G/retry-with-targets", WF({
+        "a": T([N(F, ["cleanup", "retry"]), N(S, "b")]), "b": T(), "cleanup": T()})))
+    out.append(("G/join-zero", WF({
+        "a": T([N(S, ["b", "c"])]), "b": T([N(S, "j")]), "c": T([N(S, "j")]), "j": T(join=0)})))
     # join with retry and join count
     out.append(("G/join-retry", WF({
         "a": T([N(S, ["b", "c"])]), "b": T([N(S, "j")]), "c": T([N(S, "j")]),
